@@ -380,4 +380,31 @@ theorem peer_unsuback_head (c : C) (r : Req) (rest : Queue) (hq : c.unsuback = r
   rw [ack_head r rest tUNSUBACK [] hid, acked_head _ rest terminal_UNSUBACK hh]
   exact foldDone_single _ _ _
 
+/-! ### Unsubscribe -/
+
+theorem dropStore_eq (ts : List (Bytes × Nat)) : ∀ store : List Sub,
+    dropStore store ts = store.filter (fun e => !(ts.map (·.1)).contains e.filter) := by
+  induction ts with
+  | nil =>
+    intro store
+    simp only [dropStore, List.map_nil, List.contains_nil, Bool.not_false]
+    exact (List.filter_eq_self.mpr (fun _ _ => rfl)).symm
+  | cons t ts ih =>
+    intro store
+    rw [dropStore, ih]
+    simp only [specSubs, List.filter_filter, List.map_cons, List.contains_cons]
+    apply List.filter_congr
+    intro e _
+    cases h1 : (e.filter == t.1) <;> simp [h1]
+
+theorem heldBy_filter (cb : Nat) (store : List Sub) (P : Bytes → Bool) :
+    heldBy cb (store.filter (fun e => P e.filter)) = (heldBy cb store).filter P := by
+  unfold heldBy
+  rw [List.filter_filter, List.filter_map]
+  congr 1
+  rw [List.filter_filter]
+  apply List.filter_congr
+  intro e _
+  simp [Bool.and_comm]
+
 end Mqtt.Proofs.Client
